@@ -12,7 +12,7 @@ namespace vf {
 
 const char* property_id() { return "C15"; }
 unsigned case_timeout_s() { return 120; }
-uint64_t num_cases(bool thorough) { return thorough ? 80000 : 2400; }
+uint64_t num_cases(bool thorough) { return thorough ? 16000 : 2400; }
 void final_report() {}
 
 // documented canonical bytes for the Bloom filter overloads (unsigned: zero-extend, signed: sign-extend to 64 bits)
